@@ -518,10 +518,54 @@ def check_rewind(P, R):
                       "are lost" % (pos[0][0], pos[0][1].get("l")), r)
 
 
+def check_terminated(P, R):
+    """RF-term: the consumers parse NUL-terminated text, and the window is reused, so behind a line lies whatever an earlier window
+    left there: every place where prchunk_fill records the end of a line also stores a NUL at that end (the store may be guarded by
+    `end < size of the window` where the end can coincide with the end of the mapping)"""
+    rule = "RF-term"
+    tu = P.tu("prchunk.c")
+    fn = tu.func("prchunk_fill")
+    if fn is None:
+        raise AnalysisBroken("prchunk_fill vanished")
+    sites = [c for c in fn.walk() if c.get("k") == "CallExpr" and c.get("callee") == "set_loff" and len(call_args(c)) >= 3]
+    if len(sites) < 2:
+        raise AnalysisBroken("%s: the places where prchunk_fill records a line end were not recognised (%d)" % (rule, len(sites)))
+    for c in sites:
+        end = strip(call_args(c)[2])
+        # the end is `P - buffer start`: the pointer P
+        ptr = None
+        if end is not None and end.get("k") == "BinaryOperator" and end.get("op") == "-":
+            pe = strip(end["c"][0])
+            while pe is not None and pe.get("k") in CASTS and pe.get("c"):
+                pe = strip(pe["c"][0])
+            if pe is not None and pe.get("k") == "DeclRefExpr":
+                ptr = pe
+        if ptr is None:
+            raise AnalysisBroken("%s: the end offset of a recorded line is not `pointer - start` (%s)" % (rule, expr_text(end)[:40]))
+        # a store `*P = 0` in the same compound statement (straight-line neighbourhood, possibly inside one guarding if)
+        par = fn.parent(c)
+        while par is not None and par.get("k") != "CompoundStmt":
+            par = fn.parent(par)
+        ok = False
+        for x in (walk(par) if par is not None else []):
+            if x.get("k") == "BinaryOperator" and x.get("op") == "=" and const_of(x["c"][1]) == 0:
+                l = strip(x["c"][0])
+                if l is not None and l.get("k") == "UnaryOperator" and l.get("op") == "*" and (strip(l["c"][0]) or {}).get("d") == ptr.get("d"):
+                    ok = True
+        site = "line end recorded at line %s (`%s`)" % (c.get("l"), expr_text(end)[:30])
+        if ok:
+            R.ob(rule, "prchunk_fill: %s is followed by a NUL stored there" % site, True)
+        else:
+            R.finding(rule, fn, site, "the end of a line is recorded but no NUL is stored at it: the line is handed out with whatever an earlier, "
+                      "larger window left behind it, and the parsers read on into that", c)
+    R.floor(rule, "recorded line ends", len(sites), 3)
+
+
 def check(P, R, tier):
     import c10
     c10.check_finder_start(P, R, "RF4-start")
     check_rewind(P, R)
+    check_terminated(P, R)
     check_window(P, R)
     check_pairing(P, R)
     check_sed(P, R)
